@@ -48,6 +48,12 @@ CLAIMED = {
              "binary64 (QF_FP) query for the wrap edge of x % 2*pi.", ref="§6 C16",
              note="Trusted base: z3, symx; R-mode exact reals with tolerance 1e-9 where binary64 constants are involved. Findings F2a/F2b/F3 are reported "
              "as KNOWN-FINDING. Interpolated/Kaiser numerics and the from_max_val duration searches are outside the claim."),
+ "C12": dict(text="Bounded symbolic model checking of device geometry validation: _validate_coords/validate_register on real devices with up to "
+             "two symbolic atoms among three (distances compared in squared form, offending pairs/atoms checked exactly), layout trap counts and "
+             "filling fraction, BaseDevice parameter validation against the documented constraints, and closure of Register.max_connectivity / "
+             "with_automatic_layout (symbolic spacing / filling fractions).", ref="§6 C12",
+             note="Trusted base: z3 (QF_NRA), symx, squared-form sqrt proxy, scipy pdist/squareform contract shims. A band of 1e-9 around each "
+             "distance threshold is unspecified (binary64 roots vs exact reference) except for atoms on one axis, where thresholds are decided exactly."),
  "C02": dict(text="Bounded symbolic model checking of the real _Schedule operations: one operation from an arbitrary state "
              "satisfying the representation invariant (inductive step), all times/durations/fall times/limits as solver variables; "
              "exhaustive over paths and values inside the stated slot-count/clock bounds.", ref="§6 C02, §5 L1"),
